@@ -33,7 +33,7 @@ def nontrivial(spec):
     if spec["n"] < 2:
         return False
     for o in spec["ops"]:
-        if len(o["regs"]) == 2 and tuple(o["regs"]) != (0, 1):
+        if len(o["regs"]) >= 2 and tuple(o["regs"]) != tuple(range(len(o["regs"]))):
             return True
         if len(o["regs"]) == 1 and o["regs"][0] != 0 and o["cls"] in ("LossChannel", "ThermalLossChannel", "Thermal",
                                                                       "Coherent", "Squeezed", "DisplacedSqueezed", "Vacuum"):
@@ -63,6 +63,9 @@ def check_program(ctx, sf, spec, fock=True, cutoff=9):
             st, _ = sim.run_spec(sf, spec, be)
             m = sim.moments_gaussian(st, sf.hbar) if be == "gaussian" else sim.moments_bosonic(st, sf.hbar)
         except Exception as e:  # noqa: BLE001
+            if type(e).__name__ in ("CircuitError", "NotImplementedError"):
+                ctx.tally(f"not-accepted:{be}")       # the property speaks about programs a back end accepts
+                continue
             ctx.fail(f"{be}-raises:{type(e).__name__}", f"{be} back end raised {type(e).__name__}: {e} on an accepted program",
                      rp)
             continue
@@ -209,6 +212,7 @@ def run(ctx, sf):
         ctx.count("corpus", spec, nontrivial(spec))
         check_program(ctx, sf, spec)
     rng = ctx.rng
+    nprng = ctx.nprng(11)
     n_prog = ctx.n(60, 700)
     for it in range(n_prog):
         n = rng.choice([1, 2, 2, 3, 3, 3, 4])
@@ -216,6 +220,10 @@ def run(ctx, sf):
         if rng.random() < 0.5 and n >= 2:      # make sure spectators are in a correlated state first
             spec["ops"] = sim.correlated_prefix(rng, n) + spec["ops"][:4]
         fock = (it % 3 != 2) if ctx.tier == "quick" else True
+        if it % 4 == 1:     # natively applied multi-mode operations of the phase-space back ends (mode lists in any order)
+            extra = sim.rand_passive_op(rng, nprng, n) if it % 8 == 1 else sim.rand_gaussian_prep_op(rng, nprng, n)
+            spec["ops"].insert(rng.randint(0, len(spec["ops"])), extra)
+            fock = False
         ctx.count("program:n=%d" % n, spec, nontrivial(spec), sample=spec)
         for o in spec["ops"]:
             ctx.tally("op:" + o["cls"] + (".H" if o.get("dagger") else ""))
